@@ -138,7 +138,9 @@ def ofAvro : Nat → Codec → Value → GoVal → Fit GoVal
     | .fixed _, .bytes bs => .ok (.fixed bs)
     | .array item _, .array vs =>
       match dst with
-      | .slice items => do
+      | .slice items =>
+        -- a Go slice holds fewer than 2^63 elements
+        if items.length + vs.length ≥ 2 ^ 63 then .illtyped else do
         let gs ← mapFit (fun v => ofAvro fuel item v (Codec.zero env item)) vs
         pure (.slice (items ++ gs))
       | _ => .illtyped
